@@ -22,7 +22,9 @@ LEVEL = 'exploration'
 FR = ['>>> ', '... ', '>>>', '...', '\n', '    ', 'x = 1', '(', ')', '[', ']', "'", '"""', "'''", '\\',
       '# xdoctest: +SKIP', '# xdoctest: +REQUIRES(', '# xdoctest: +REQUIRES(--x)', '# doctest: +FOO', '\x00', '\x0c',
       '\r', '\t', 'def f():', 'return', 'if x:', 'else:', 'print(1)', ';', ':', 'lambda', 'Example:', 'want', '@',
-      '\xe9', 'await', 'class A:', '{', '}', ',', '#']
+      '\xe9', 'await', 'class A:', '{', '}', ',', '#',
+      # directive prefixes in other spellings, unbalanced either way; a google block header with its indentation
+      '# XDOCTEST: +SKIP)', '# Doctest: +REQUIRES(', '# xdoc: +SKIP(', 'Example:\n    ', 'Doctest:\n    >>> ']
 STYLES = ('auto', 'google', 'freeform')
 PROMPTS = ('>>>', '...')
 
@@ -49,6 +51,26 @@ def check_string(s, embed, fails, counters):
     if time.time() - t0 > 2.0:
         fails.append((key, [{'sig': 'parse:slow', 'msg': '%.1fs for %r' % (time.time() - t0, s)}], {'string': s}))
     n = 1
+    # the directive prefix is case-insensitive: spelling it in lower case must not change whether the text parses
+    low = s
+    for a in ('# XDOCTEST:', '# Doctest:'):
+        low = low.replace(a, a.lower())
+    if low != s:
+        n += 1
+        try:
+            P.DoctestParser().parse(low)
+            perr_low = False
+        except exceptions.DoctestParseError:
+            perr_low = True
+        except BaseException as ex:
+            if type(ex).__name__ == 'CaseTimeout':
+                raise
+            perr_low = None
+        if perr_low is not None and perr_low != perr and not any(k2 == key and a2[0]['sig'].startswith('parse:escapes') for k2, a2, _ in fails):
+            fails.append((key, [{'sig': 'parse:directive-prefix-case-changes-the-verdict',
+                                 'msg': 'parse(%r) %s, with the prefix in lower case it %s' % (
+                                     s, 'raises the parse error' if perr else 'returns parts',
+                                     'raises the parse error' if perr_low else 'returns parts')}], {'string': s}))
     for style in STYLES:
         n += 1
         try:
@@ -60,6 +82,25 @@ def check_string(s, embed, fails, counters):
                     fails.append((key, [{'sig': 'examples:yielded-despite-parse-error', 'msg': '%s %r' % (style, s)}], {'string': s}))
                 if not wl:
                     fails.append((key, [{'sig': 'examples:no-warning-for-parse-error', 'msg': '%s %r' % (style, s)}], {'string': s}))
+            if perr and style == 'auto' and not exs and not wl:
+                # auto = google blocks when they yield something, else freeform: a docstring that does not parse
+                # as a whole either yields the examples of its intact google blocks or is reported
+                fails.append((key, [{'sig': 'examples:broken-docstring-silently-dropped', 'msg': '%s %r' % (style, s)}], {'string': s}))
+            if style == 'freeform':
+                # whatever was accepted as an example must be *runnable*: a run asked to return errors returns
+                for e in exs:
+                    e.mode = 'native'
+                    e.config['colored'] = False
+                    try:
+                        with contextlib.redirect_stdout(io.StringIO()), contextlib.redirect_stderr(io.StringIO()):
+                            sm = e.run(on_error='return', verbose=0)
+                        counters['example-ran'] += 1
+                    except BaseException as ex:
+                        if type(ex).__name__ == 'CaseTimeout':
+                            raise
+                        fails.append((key, [{'sig': 'examples:accepted-example-escapes-run:' + type(ex).__name__,
+                                             'msg': 'the example collected from %r: run(on_error=return) raised %r' % (s, ex)}], {'string': s}))
+                        break
         except BaseException as ex:
             if type(ex).__name__ == 'CaseTimeout':
                 raise
